@@ -18,8 +18,9 @@ from pathlib import Path
 VERIF = Path(__file__).resolve().parent.parent
 REPO = Path(os.environ.get('VERIF_REPO', '/repo'))
 SPEC = VERIF / 'spec'
-WORK = VERIF / '.work'
-EVID = VERIF / 'evidence'
+# developer overrides (tools/seed_eval.sh runs checks against scratch trees without touching the committed evidence)
+WORK = Path(os.environ.get('VERIF_WORK') or (VERIF / '.work'))
+EVID = Path(os.environ.get('VERIF_EVIDENCE') or (VERIF / 'evidence'))
 PY = '/venv/bin/python'
 FINDINGS_FILE = VERIF / 'known_findings.jsonl'
 NCPU = min(16, os.cpu_count() or 4)
